@@ -15,6 +15,8 @@ Expected(r) ==
 RowOK(r) ==
   IF r.kind = "nonstr" THEN r.build = "ValueError"
   ELSE /\ r.build \in BuildAllowed(r.toks)
+       \* an illegal specification is illegal whatever the array type (here: Python's float)
+       /\ (BuildAllowed(r.toks) = {"ValueError"}) => r.build_scalar = "ValueError"
        /\ LET p == ParseSpec(r.toks) IN
           (r.build = "ok" /\ p.ok /\ ~p.unspec) =>
              LET va == VecAllowed(r.toks) IN
